@@ -70,3 +70,79 @@ package token
 //@   loop 6 decreases int(line) - int(uint32(len(comments)))
 //@   loop 7 invariant 0 <= i && i < len(src) && -1 <= rangeindex && mapOK(m) && 1 <= line && line <= 1048575 && (isnil(base(comments)) || fresh(base(comments))) && (isnil(base(tokens)) || fresh(base(tokens))) && rangeindex <= len(lexers[c]) && (base(m.byID) == old(base(m.byID)) || fresh(base(m.byID)))
 //@   loop 7 decreases len(lexers[c]) - rangeindex
+
+// ---- predicates on IDs used by the parser: a true answer is never given for ID 0 ('no token') ----
+//@ func (ID).IsUnaryOp
+//@   prop C11
+//@   pure
+//@   ensures implies(result, x != 0)
+
+//@ func (ID).IsBinaryOp
+//@   prop C11
+//@   pure
+//@   ensures implies(result, x != 0)
+
+//@ func (ID).IsAssociativeOp
+//@   prop C11
+//@   pure
+//@   ensures implies(result, x != 0)
+
+//@ func (ID).IsAssign
+//@   prop C11
+//@   pure
+//@   ensures implies(result, x != 0)
+
+//@ func (ID).IsCannotAssignTo
+//@   prop C11
+//@   pure
+//@   ensures implies(result, x != 0)
+
+//@ func (ID).IsNumType
+//@   prop C11
+//@   pure
+//@   ensures implies(result, x != 0)
+
+//@ func (ID).IsClose
+//@   prop C11
+//@   pure
+//@   ensures implies(result, x != 0)
+
+//@ func (ID).IsKeyword
+//@   prop C11
+//@   pure
+//@   ensures implies(result, x != 0)
+
+//@ func (ID).IsOpen
+//@   prop C11
+//@   pure
+//@   ensures implies(result, x != 0)
+
+//@ func (ID).IsLiteral
+//@   prop C11
+//@   pure
+//@   requires m != nil
+//@   ensures implies(result, x != 0)
+
+//@ func (ID).IsNumLiteral
+//@   prop C11
+//@   pure
+//@   requires m != nil
+//@   ensures implies(result, x != 0)
+
+//@ func (ID).IsDQStrLiteral
+//@   prop C11
+//@   pure
+//@   requires m != nil
+//@   ensures implies(result, x != 0)
+
+//@ func (ID).IsSQStrLiteral
+//@   prop C11
+//@   pure
+//@   requires m != nil
+//@   ensures implies(result, x != 0)
+
+//@ func (ID).IsIdent
+//@   prop C11
+//@   pure
+//@   requires m != nil
+//@   ensures implies(result, x != 0)
